@@ -530,3 +530,30 @@ def reach_under(ctx, node: ast.AST, leaf, expand=None, relevant=None) -> Optiona
         elif r != pol:
             return False
     return out
+
+
+# ------------------------------------------------------------------------------------------------------------------
+# views of Indentizer.to_list per bullet mode (C18 / C19)
+# ------------------------------------------------------------------------------------------------------------------
+def to_list_views(ctx) -> Dict[str, FuncInfo]:
+    """Indentizer.to_list specialised (dznverif.specialise) for: no bullet list, mode ALL, mode FIRST_ONLY.  Each view is a
+    self-contained function of the model (helper methods that return one expression are inlined, the branch on the mode is
+    folded away): closures, a chain of ifs, a pair of formatter methods or a mode table all give the same three views."""
+    from ..specialise import residual, TRUTHY
+    prog = ctx.prog
+    ind = prog.cls('text_gen', 'Indentizer')
+    to_list = ind.methods.get('to_list') if ind else None
+    if to_list is None:
+        return {}
+    cached = getattr(ctx, '_to_list_views', None)
+    if cached is not None:
+        return cached
+    def member(name):
+        return ast.parse(f'BulletListMode.{name}', mode='eval').body
+    out = {}
+    for label, asm in (('NONE', {'self.bullet_list': None}),
+                       ('ALL', {'self.bullet_list': TRUTHY, 'self.bullet_list.mode': member('ALL')}),
+                       ('FIRST_ONLY', {'self.bullet_list': TRUTHY, 'self.bullet_list.mode': member('FIRST_ONLY')})):
+        out[label] = prog.add_synthetic(to_list, residual(prog, to_list, {}, assume=asm), f'mode-{label}')
+    ctx._to_list_views = out
+    return out
